@@ -1407,6 +1407,25 @@ def gen_world_hundred_thousand_pieces(rng):
     return w
 
 
+def gen_world_link_length_missing(rng):
+    """C16: a symbolic link below a scan directory whose own size (the length of its target string) equals the declared length
+    of a torrent file that exists NOWHERE, and that file shares a piece with one that is present: the piece is simply not
+    available — no candidate list may come out empty-but-present"""
+    w = World()
+    la, lb = rng.range(6, 12), rng.range(3, 9)
+    fa = TFile(la, [b"a.bin"], gen_content(rng, la)); fb = TFile(lb, [b"b.bin"], gen_content(rng, lb))
+    g = GT(b"lnk", la + lb + rng.range(0, 3), [fa, fb] if rng.chance(1, 2) else [fb, fa], True)
+    w.gts = [g]; w.docs = [g.doc]
+    w.dirs.add(w.export)
+    w.scan = [(b"scan0",)]
+    w.add_file((b"scan0", b"a.bin"), fa.content)
+    w.ghost_links = {(b"scan0", b"latest"): b"./" + b"t" * (lb - 2) if lb >= 3 else b"x" * lb}
+    w.add_file((b"bystander", b"note.txt"), b"do not touch")
+    w.threads = rng.choice([1, 2])
+    w.tag = "link whose size is a missing file's length"
+    return w
+
+
 def gen_world_misfiled(rng):
     """C01: export images that hold ANOTHER torrent file's (correct) bytes — a mis-filed download. The matcher may
     legitimately use such an image as the source of the other file's segment; what is written must still be the
